@@ -65,7 +65,7 @@ def write_set(body):
         tgt(n.target)
       elif isinstance(n, ast.ExceptHandler) and n.name:
         names.add(n.name)
-      elif isinstance(n, ast.Call) and isinstance(n.func, ast.Attribute) and n.func.attr in ('append', 'extend') \
+      elif isinstance(n, ast.Call) and isinstance(n.func, ast.Attribute) and n.func.attr in ('append', 'extend', 'add', 'update', 'difference_update') \
               and isinstance(n.func.value, ast.Name):
         names.add(n.func.value.id)
         appended.add(n.func.value.id)
@@ -98,6 +98,12 @@ def havoc_value(ex, p, v, hint):
     p.lists[lid] = dict(n=n, elem=v.items[0] if v.items else None)
     return VListRef(lid)
   if isinstance(v, VListRef):
+    L = dict(p.lists[v.lid])
+    if hint in appended:
+      n = fresh('len', z3.IntSort())
+      p.assume(n >= 0)
+      L['n'] = n
+      p.lists[v.lid] = L
     return v
   if isinstance(v, VList):
     return VList([havoc_value(ex, p, x, hint) for x in v.items])
@@ -201,6 +207,40 @@ def arr_elem(ex, p, a, node, i):
   cx = Cx(ex.lib, ex, p, node)
   (q, v), = ex.lib.np.index(cx, a, st, [VInt(i)])
   return v, n
+
+
+def transfer(v, src, dst, hint):
+  """copy a value created on path `src` into path `dst` (arrays get a fresh location and a fresh, unknown content)"""
+  if isinstance(v, VArr):
+    if v.loc in dst.store and v.loc not in src.store:
+      return v
+    s_ = src.store[v.loc]
+    return dst.new_loc(s_.replace(term=fresh(hint, T), base=None))
+  if isinstance(v, VTuple):
+    return VTuple([transfer(x, src, dst, hint) for x in v.items])
+  if isinstance(v, VList):
+    return VList([transfer(x, src, dst, hint) for x in v.items])
+  if isinstance(v, VListRef):
+    if v.lid not in dst.lists and v.lid in src.lists:
+      L = dict(src.lists[v.lid])
+      if L.get('elem') is not None:
+        L['elem'] = transfer(L['elem'], src, dst, hint)
+      dst.lists[v.lid] = L
+    return v
+  if isinstance(v, VInt):
+    r = VInt(fresh(hint, z3.IntSort()))
+    if getattr(v, 'vf', None) is not None:
+      r.vf = v.vf
+    return r
+  if isinstance(v, VReal):
+    return VReal(fresh(hint, z3.RealSort()))
+  if isinstance(v, VBool):
+    return VBool(fresh(hint, z3.BoolSort()))
+  if type(v).__name__ == 'VExtObj':
+    if v.oid not in dst.heap and v.oid in src.heap:
+      dst.heap[v.oid] = dict(src.heap[v.oid])
+    return v
+  return v
 
 
 def loop_hook(ex, st, p, module):
@@ -414,10 +454,9 @@ def one_loop(ex, st, p, it, module, is_for, inv, target, ordinal, optional=froze
       for q in ends + breaks:
         e = q.lists.get(hv.lid, {}).get('elem')
         if e is not None and exit_p.lists[hv.lid].get('elem') is None:
-          if isinstance(e, VArr):
-            s_ = q.store[e.loc]
-            e = exit_p.new_loc(s_.replace(term=fresh(k, T), base=None))
-          exit_p.lists[hv.lid]['elem'] = e
+          L = dict(exit_p.lists[hv.lid])
+          L['elem'] = transfer(e, q, exit_p, k)
+          exit_p.lists[hv.lid] = L
           break
   # variables first bound inside the body: bound after the loop (assumption: the loop ran at least once when they are read)
   new_names = set()
@@ -434,16 +473,7 @@ def one_loop(ex, st, p, it, module, is_for, inv, target, ordinal, optional=froze
     if k in exit_p.env and k not in names and not is_for:
       continue
     if sample is not None and k in sample.env:
-      v = sample.env[k]
-      if isinstance(v, VArr):
-        # copy the array record into the exit path under a fresh location
-        s_ = sample.store[v.loc]
-        exit_p.env[k] = exit_p.new_loc(s_.replace(term=fresh(k, T)))
-      else:
-        try:
-          exit_p.env[k] = havoc_value(ex, exit_p, v, k)
-        except Unsupported:
-          exit_p.env[k] = VOpaque('loop-local ' + k)
+      exit_p.env[k] = transfer(sample.env[k], sample, exit_p, k)
       note = 'loop at line %d assumed to execute at least once where `%s` is read afterwards' % (st.lineno, k)
       if note not in exit_p.notes:
         exit_p.notes.append(note)
